@@ -101,9 +101,11 @@ def run(ctx):
 MANIFEST = dict(
     category="proof",
     text="Theorems over an executable model of the kube-controllers IPAM garbage collector (block bookkeeping, leak "
-         "candidates and grace period, final re-validation, per-handle release, empty-block release) for every history and "
-         "every map iteration order, plus a correspondence run of the model and a specification oracle against the real "
-         "IPAMController driven synchronously with a virtual clock.",
+         "candidates and grace period, final re-validation, per-handle release, empty-block release) for every history of "
+         "block/pod/node/time events and GC syncs and every map iteration order (reachable-state invariants: index "
+         "invariant, block maps = image of the blocks seen; per-sync consequences: released only if unjustified, whole "
+         "handles, never a node's last block, grace chain), plus a correspondence run of the model and a specification "
+         "oracle against the real IPAMController driven synchronously with a virtual clock.",
     note="Partial: KubeVirt VM/VMI validity, cooldown GC, pools/metrics not modelled. Trusted: Coq kernel; hand-written "
          "model tied to the code only by the correspondence run; Go driver and client-go fakes.",
 )
